@@ -112,8 +112,12 @@ func (v *varValidator) validateVarType(typ *ast.Type, val reflect.Value) (reflec
 			v.path = append(v.path, ast.PathIndex(i))
 			field := val.Index(i)
 			if field.Kind() == reflect.Ptr || field.Kind() == reflect.Interface {
-				if typ.Elem.NonNull && field.IsNil() {
-					return val, gqlerror.ErrorPathf(v.path, "cannot be null")
+				if field.IsNil() {
+					if typ.Elem.NonNull {
+						return val, gqlerror.ErrorPathf(v.path, "cannot be null")
+					}
+					// a null item of a nullable element type, nothing more to check
+					continue
 				}
 				field = field.Elem()
 			}
